@@ -16,7 +16,7 @@ use std::io::Write;
 
 pub const TYPES: &[&str] = &[
     "time", "aead", "vcommit", "write", "account", "file", "device", "record", "cproof", "cstate",
-    "comparison", "vaultmeta", "secretmeta", "secret", "tagset",
+    "comparison", "vaultmeta", "secretmeta", "secret", "tagset", "evfile",
 ];
 
 fn gen_time(r: &mut Rng) -> UtcDateTime {
@@ -245,6 +245,76 @@ fn tags_from_bytes(b: &[u8]) -> Option<Vec<String>> {
     Some(out)
 }
 
+fn evfile_dir() -> std::path::PathBuf {
+    let d = std::env::current_dir().unwrap_or_else(|_| std::env::temp_dir()).join("c15-evfile");
+    let _ = std::fs::create_dir_all(&d);
+    d
+}
+/// the bytes of a folder event log file (file-system backend) holding the given events
+fn evfile_bytes(rt: &tokio::runtime::Runtime, evs: &[WriteEvent]) -> Vec<u8> {
+    use sos_core::events::EventLog;
+    let p = evfile_dir().join("gen.events");
+    let _ = std::fs::remove_file(&p);
+    rt.block_on(async {
+        let mut log = sos_filesystem::FolderEventLog::<sos_backend::Error>::new_folder(
+            &p,
+            sos_core::AccountId::from([0xC5u8; 20]),
+            sos_core::events::EventLogType::Folder(sos_core::VaultId::new_v4()),
+        )
+        .await
+        .expect("new event log");
+        log.apply(evs).await.expect("apply");
+    });
+    let b = std::fs::read(&p).unwrap_or_default();
+    let _ = std::fs::remove_file(&p);
+    b
+}
+/// open the bytes as a folder event log file: the row iterator in both directions (compared with the
+/// model), then the record streams with their payload reads (panics / allocation only)
+fn evfile_walk(rt: &tokio::runtime::Runtime, bytes: &[u8]) -> String {
+    use futures::{pin_mut, StreamExt};
+    use sos_core::events::EventLog;
+    let acc = sos_core::AccountId::from([0xC5u8; 20]);
+    let dir = evfile_dir();
+    rt.block_on(async {
+        let (fwd, rev) = crate::c13::both_directions("folder.events", bytes, &dir, &acc).await;
+        let p = dir.join("s.events");
+        std::fs::write(&p, bytes).unwrap();
+        let mut extra = vec![];
+        if let Ok(mut log) = sos_filesystem::FolderEventLog::<sos_backend::Error>::new_folder(
+            &p,
+            acc,
+            sos_core::events::EventLogType::Folder(sos_core::VaultId::new_v4()),
+        )
+        .await
+        {
+            extra.push(format!("tree={}", match log.load_tree().await { Ok(_) => log.tree().len().to_string(), Err(_) => "err".into() }));
+            for reverse in [false, true] {
+                let stream = log.record_stream(reverse).await;
+                pin_mut!(stream);
+                let mut n = 0usize;
+                let mut res = "ok";
+                while let Some(r) = stream.next().await {
+                    match r {
+                        Ok(_) => n += 1,
+                        Err(_) => {
+                            res = "err";
+                            break;
+                        }
+                    }
+                    if n > 200_000 {
+                        res = "hang";
+                        break;
+                    }
+                }
+                extra.push(format!("{}={res}{n}", if reverse { "rrec" } else { "frec" }));
+            }
+        }
+        let _ = std::fs::remove_file(&p);
+        format!("ok fwd={fwd} rev={rev} !!{}", extra.join(","))
+    })
+}
+
 macro_rules! roundtrip {
     ($rt:expr, $v:expr, $t:ty) => {{
         let v = $v;
@@ -302,6 +372,11 @@ pub fn gen(spec: &str, out: &mut impl Write) {
                 (bytes, same)
             }
             "secret" => roundtrip!(rt, gen_secret(&mut r), sos_vault::secret::Secret),
+            "evfile" => {
+                let n = 1 + r.below(4) as usize;
+                let evs: Vec<WriteEvent> = (0..n).map(|_| gen_write(&mut r)).collect();
+                (evfile_bytes(&rt, &evs), true)
+            }
             "tagset" => {
                 // distinct tags in a generated order; the case is that list, the observation the tag field of the
                 // real encoding; rt: the field is the same whichever order the set was filled in
@@ -352,6 +427,7 @@ pub fn decode_one(rt: &tokio::runtime::Runtime, ty: &str, bytes: &[u8]) -> Strin
         "vaultmeta" => redecode!(rt, bytes, sos_vault::VaultMeta),
         "secretmeta" => redecode!(rt, bytes, sos_vault::secret::SecretMeta),
         "secret" => redecode!(rt, bytes, sos_vault::secret::Secret),
+        "evfile" => evfile_walk(rt, bytes),
         "tagset" => match tags_from_bytes(bytes) {
             Some(mut tags) => {
                 tags.reverse();
@@ -381,7 +457,14 @@ pub fn run(text: &str, out: &mut impl Write) {
         let res = guarded(|| decode_one(&rt, ty, &bytes));
         let (peak, maxreq) = crate::alloc::window_end(start);
         match res {
-            Ok(s) => writeln!(out, "{id} {s}").unwrap(),
+            Ok(s) => match s.split_once(" !!") {
+                // implementation-only details travel on their own line
+                Some((a, b)) => {
+                    writeln!(out, "{id} {a}").unwrap();
+                    writeln!(out, "{id} !detail {b}").unwrap();
+                }
+                None => writeln!(out, "{id} {s}").unwrap(),
+            },
             Err(m) => {
                 writeln!(out, "{id} panic").unwrap();
                 writeln!(out, "{id} !panic {m}").unwrap();
